@@ -249,8 +249,7 @@ theorem pureLookup_ok_rank (c : Option Code) (k : K) (f : F) (h : pureLookup pla
     | none => exact ⟨_, pureTop_ok_written plan k f h⟩
     | some c => exact pureNext_ok_written plan c k f h
   obtain ⟨ck, hck⟩ := hw
-  have hm := lastC_mem _ _ _ hck
-  unfold ws at hm
+  have hm := (mem_ws plan k _).1 (lastC_mem _ _ _ hck)
   exact writes_c_func k _ _ _ _ hm
 
 end
